@@ -79,7 +79,8 @@ def run(ctx):
     hist = {"calls": 0, "calls_with_errors": 0, "calls_with_warnings": 0, "dump_compared": 0, "paired_tables": 0,
             "switch_change_sequences": 0}
     for i in range(ninputs):
-        inp, users = gi.stream_input(ctx.rng, force_long=(ctx.rng.choice([4096, 4097, 5000, 8192, 9000]) if i == 0 else None))
+        inp, users = gi.stream_input(ctx.rng, force_long=(ctx.rng.choice([4096, 4097, 5000, 8192, 9000]) if i == 0 else None),
+                                     force_no_newline=(i == 1))
         confs = ctx.rng.sample(allbits, min(nconf, len(allbits)))
         ref_tables = {}          # position of the call within its instance's history -> (tables, cfg)
         # consecutive calls on one instance, switches changed between calls (groups of 4)
